@@ -165,7 +165,7 @@ class C28(VectorEngine):
         "thorough": [("MC_Lists", "MC_Lists_C28_a.cfg", {"workers": 4}), ("MC_Lists", "MC_Lists_C28_b.cfg", {"workers": 4}),
                      ("MC_Lists", "MC_Lists_C28_t.cfg", {"workers": 4, "timeout": 1500})],
     }
-    random_n = {"quick": 1000, "thorough": 15000}
+    random_n = {"quick": 1000, "thorough": 8000}
 
     def render(self, inp):
         lines = [PRELUDE, f"$c0: {render_value(inp['init'])};"]
